@@ -158,7 +158,7 @@ func c17gates(c *Ctx, fn *ssa.Function) {
 	// every gate check is evaluated before the eviction (dominates it)
 	for _, name := range []string{"GetReservation", "IsReservationPending", "IsReservationExpired", "IsReservationScheduled", "prepareJobWithReservationScheduleSuccess", "abortJobIfTimeout"} {
 		cl := find(name)
-		ok := cl != nil && instrBefore(cl, ev)
+		ok := cl != nil && mustPass(cl, ev)
 		r.Check(ok, "PATH", key+"/gate-evaluated/"+name, c.InstrPos(ev), name+" is evaluated on every path to the eviction", name+" does not dominate the eviction: some path evicts without this check (e.g. the check was moved under another condition)")
 	}
 	// terminal phases
@@ -275,7 +275,7 @@ func c17evict(c *Ctx, fn *ssa.Function) {
 		}
 		r.Check(!an.Explore(fn, nil, with(e2), nil).Reached(ev), "PATH", key+"/no-evict-while-evicting", c.InstrPos(ev), "an eviction in progress is not repeated", "Evict is reachable although the condition says Evicting")
 	}
-	r.Check(!an.Explore(fn, nil, an.Facts{extract(ab.Value(), 0): an.True}, nil).Reached(ev) && instrBefore(ab, ev), "PATH", key+"/no-evict-when-bound-by-another", c.InstrPos(ev), "no eviction when the reservation is bound by another pod", "Evict is reachable although the reservation is bound by another pod (or the check no longer dominates it)")
+	r.Check(!an.Explore(fn, nil, an.Facts{extract(ab.Value(), 0): an.True}, nil).Reached(ev) && mustPass(ab, ev), "PATH", key+"/no-evict-when-bound-by-another", c.InstrPos(ev), "no eviction when the reservation is bound by another pod", "Evict is reachable although the reservation is bound by another pod (or the check no longer dominates it)")
 	isUpd := map[ssa.Instruction]bool{}
 	for _, u := range upd {
 		isUpd[u] = true
@@ -314,9 +314,9 @@ func c17ttl(c *Ctx, fn *ssa.Function) {
 		r.Fail("PATH", key+"/delete-before-fail", c.Pos(fn.Pos()), "deleteReservation, the Phase store or the status update not found in abortJobIfTimeout")
 		return
 	}
-	okOrder := instrBefore(del, phaseStore)
+	okOrder := mustPass(del, phaseStore)
 	for _, u := range upd {
-		okOrder = okOrder && instrBefore(del, u)
+		okOrder = okOrder && mustPass(del, u)
 	}
 	r.Check(okOrder, "PATH", key+"/delete-before-fail", c.InstrPos(del), "the reservation is deleted before the job is marked failed", "the job is marked Failed (or the status is updated) before the reservation is deleted: if the delete then fails, the terminal phase prevents any retry and the reservation leaks")
 	if isNF != nil {
